@@ -94,6 +94,7 @@ def _worker_main(conn, workdir, repo):
         try:
             cnt['n'], cnt['t'] = 0, 0.0
             r0 = rt.reached_count()
+            e0 = rt.exhausted_count()
             m = importlib.import_module(job['modname'])
             stats = collections.Counter()
             opts = AnalysisOptionSet(per_condition_timeout=job['timeout'], per_path_timeout=job['path_timeout'], report_all=True,
@@ -103,7 +104,7 @@ def _worker_main(conn, workdir, repo):
             msgs = run_checkables(analyze_function(m.cond, opts))
             out = dict(idx=job['idx'], msgs=[(x.state.name, x.message) for x in msgs], paths=stats['num_paths'],
                        wall=round(time.time() - t0, 3), cpu=round(time.process_time() - c0, 3), z3n=cnt['n'], z3t=round(cnt['t'], 3),
-                       reached=rt.reached_count() - r0)
+                       reached=rt.reached_count() - r0, exhausted=rt.exhausted_count() - e0)
             sys.modules.pop(job['modname'], None)
             conn.send(('done', out))
         except BaseException as e:   # noqa
